@@ -199,3 +199,42 @@ package ovsdb
 //@ func OvsToNativeAtomic
 //@ requires basicType == "integer" || basicType == "real" || basicType == "boolean" || basicType == "string" || basicType == "uuid"
 //@ modifies nothing
+
+// ---- struct codecs (C12): every wire member flows to its own field and back ------
+// Decoding: each constraint of the base type takes the value of the wire member
+// of the same name. Encoding: each member handed to encoding/json is the field
+// of the same name.
+//@ func (*BaseType).UnmarshalJSON
+//@ requires b != nil
+//@ ensures_ok (b.Type == jsonfield(data, "type", "string") && b.minReal == jsonfield(data, "minReal", "*float64") && b.maxReal == jsonfield(data, "maxReal", "*float64") && b.minInteger == jsonfield(data, "minInteger", "*int") && b.maxInteger == jsonfield(data, "maxInteger", "*int") && b.minLength == jsonfield(data, "minLength", "*int") && b.maxLength == jsonfield(data, "maxLength", "*int") && b.refTable == jsonfield(data, "refTable", "*string") && b.refType == jsonfield(data, "refType", "*RefType")) || (b.minReal == old(b.minReal) && b.maxReal == old(b.maxReal) && b.minInteger == old(b.minInteger) && b.maxInteger == old(b.maxInteger) && b.minLength == old(b.minLength) && b.maxLength == old(b.maxLength) && b.refTable == old(b.refTable) && b.refType == old(b.refType))
+//@ func (BaseType).MarshalJSON
+//@ at call encoding/json.Marshal requires j.Type == b.Type && j.MinReal == b.minReal && j.MaxReal == b.maxReal && j.MinInteger == b.minInteger && j.MaxInteger == b.maxInteger && j.MinLength == b.minLength && j.MaxLength == b.maxLength && j.RefTable == b.refTable && j.RefType == b.refType
+
+// simpleAtomic: a base type may be written in its short (string) form only when
+// it carries no constraint at all - otherwise re-encoding would drop it.
+//@ func (*BaseType).simpleAtomic
+//@ requires b != nil
+//@ modifies nothing
+//@ ensures result ==> (b.Enum == nil && b.minReal == nil && b.maxReal == nil && b.minInteger == nil && b.maxInteger == nil && b.minLength == nil && b.maxLength == nil && b.refTable == nil && b.refType == nil)
+
+//@ func (*MonitorCondSinceReply).UnmarshalJSON
+//@ requires m != nil
+//@ ensures_ok m.Found == found && m.LastTransactionID == lastTransactionID && m.Updates == updates
+
+//@ func (MonitorCondSinceReply).MarshalJSON
+//@ at call encoding/json.Marshal requires len(v) == 3 && v[0] == box(m.Found) && v[1] == box(m.LastTransactionID)
+
+//@ func (MonitorSelect).MarshalJSON
+//@ at call encoding/json.Marshal requires ms.Initial == m.initial && ms.Insert == m.insert && ms.Delete == m.delete && ms.Modify == m.modify
+//@ func (*MonitorSelect).UnmarshalJSON
+//@ requires m != nil
+//@ ensures_ok m.initial == jsonfield(data, "initial", "*bool") && m.insert == jsonfield(data, "insert", "*bool") && m.delete == jsonfield(data, "delete", "*bool") && m.modify == jsonfield(data, "modify", "*bool")
+
+//@ func (ColumnSchema).MarshalJSON
+//@ at call encoding/json.Marshal requires column.Type == c.TypeObj && column.Ephemeral == c.ephemeral && column.Mutable == c.mutable
+//@ func (*ColumnSchema).UnmarshalJSON
+//@ requires c != nil
+//@ ensures_ok c.TypeObj == jsonfield(data, "type", "*ColumnType") && c.ephemeral == jsonfield(data, "ephemeral", "*bool") && c.mutable == jsonfield(data, "mutable", "*bool")
+//@ func (*ColumnType).UnmarshalJSON
+//@ requires c != nil
+//@ ensures_ok (c.Key == jsonfield(data, "key", "*BaseType") && c.Value == jsonfield(data, "value", "*BaseType") && c.min == jsonfield(data, "min", "*int")) || (c.Key != nil && fresh(c.Key) && c.Value == old(c.Value) && c.min == old(c.min) && c.max == old(c.max))
